@@ -60,7 +60,11 @@ pub fn cmd_tails(seed: u64, depth3: bool, aliases: bool) -> Vec<Tail> {
         t.push(Tail::Cmds { cmds: vec![c.clone()], wrap: CmdWrap::Required });
         t.push(Tail::Cmds { cmds: vec![c.clone(), other.clone()], wrap: CmdWrap::Optional });
         if i % 2 == 1 {
-            t.push(Tail::Cmds { cmds: vec![other, c], wrap: CmdWrap::Fallback });
+            t.push(Tail::Cmds { cmds: vec![other.clone(), c.clone()], wrap: CmdWrap::Fallback });
+        }
+        if i % 3 == 0 {
+            // three alternatives: two commands and a default
+            t.push(Tail::Cmds { cmds: vec![c, other], wrap: CmdWrap::PureAlt });
         }
     }
     t
